@@ -1,0 +1,23 @@
+//go:build verif
+
+package servicediscovery
+
+import "github.com/Trendyol/go-dcp/models"
+
+// VerifNewHandler builds the rpc Handler of a pod without opening a listener (only built with the verif tag).
+func VerifNewHandler(port int, myIdentity *models.Identity, sd ServiceDiscovery) *Handler {
+	return &Handler{port: port, myIdentity: myIdentity, serviceDiscovery: sd}
+}
+
+// VerifState is the unexported state of a serviceDiscovery: leader flag, name of the assigned leader service ("" if
+// none), registered service names in GetAll order, numbering in effect (0, 0 if none).
+func VerifState(sd ServiceDiscovery) (amILeader bool, leader string, services []string, memberNumber int, totalMembers int) {
+	s := sd.(*serviceDiscovery)
+	if s.leaderService != nil {
+		leader = s.leaderService.Name
+	}
+	if s.info != nil {
+		memberNumber, totalMembers = s.info.MemberNumber, s.info.TotalMembers
+	}
+	return s.amILeader, leader, s.GetAll(), memberNumber, totalMembers
+}
